@@ -264,10 +264,9 @@ func cmpProduction(lhs, rhs *Production) int {
 
 // hashFuncForProduction creates a HashFunc for hashing productions.
 func hashFuncForProduction() hash.HashFunc[*Production] {
-	h := fnv.New64()
-
 	return func(p *Production) uint64 {
-		h.Reset()
+		// A hasher per call: this function is shared by all instances and goroutines.
+		h := fnv.New64()
 		_, _ = WriteSymbol(h, p.Head) // Hash.Write never returns an error
 		_, _ = WriteString(h, p.Body) // Hash.Write never returns an error
 		return h.Sum64()
